@@ -328,7 +328,10 @@ class _AcceptElement(HeaderElement):
 		if isinstance(val, HeaderElement):  # pragma: no cover
 			val = val.value
 		if val:
-			return float(val)
+			val = float(val)
+			if val != val or val in (float('inf'), float('-inf')):
+				raise ValueError(val)
+			return val
 
 	def sanitize(self) -> None:
 		super(_AcceptElement, self).sanitize()
